@@ -271,6 +271,11 @@ class World:
             while not fut._done:
                 idx = self.busy_in_stack(owner)
                 pctx = self.parked_ctx_of(owner) if idx is None else None
+                if idx is None and pctx is None and owner in self.frozen and timeout is not None:
+                    # the callee is slow (its thread does not get to its inbox within the latency bound): the wait expires
+                    self.emit("ask_timeout", (caller, handler, timeout, [caller, owner.sim_name + "(slow)"]))
+                    self.sleep(timeout)
+                    raise pykka.Timeout(f"{timeout} seconds")
                 if idx is None and pctx is None:
                     # owner idle: drain its inbox
                     if owner.actor_inbox.empty() or not owner.actor_ref.is_alive():
